@@ -344,3 +344,16 @@ func (t *MPB) MarshalJSON() ([]byte, error) {
 type TVB uint8
 
 func (t TVB) MarshalText() ([]byte, error) { return []byte("VT:" + strconv.Itoa(int(t))), nil }
+
+// Unmarshalers narrower than a word.
+type UT8 int8
+
+func (u *UT8) UnmarshalText(b []byte) error { *u = UT8(len(b)); return nil }
+
+type UJ8 uint8
+
+func (u *UJ8) UnmarshalJSON(b []byte) error { *u = UJ8(len(b)); return nil }
+
+type UT16 struct{ A, B uint8 }
+
+func (u *UT16) UnmarshalText(b []byte) error { u.A, u.B = uint8(len(b)), 1; return nil }
